@@ -341,6 +341,32 @@ def _task_streams_of_constructed(task):
             if bad:
                 t.violation({"kind": "reframe-stream", "source": source, "trimmed": thr is not None}, {"stream_of_constructed": True, "n": task["n"], "threshold": thr, "source": source, "r": r},
                             observed=bad, note="a stream of constructed packets is not re-framed into those packets")
+    if task["n"] == 5:
+        # a message-preserving socket (SOCK_SEQPACKET, a datagram socket): every constructed packet is ONE message, some larger than the default
+        # read size; the caller asks for reads large enough for the largest message, so nothing may be cut off
+        sizes = (5000, 4090, 12, 65536, 4097, 1)
+        big = [pk.create_ccsds_packet(bytes(((i * 11 + j) & 0xFF) for j in range(sz)), apid=100 + i, sequence_count=i) for i, sz in enumerate(sizes)]
+        bstream = b"".join(bytes(p) for p in big)
+        starts = {}
+        off = 0
+        for p_ in big:
+            starts[off] = len(bytes(p_))
+            off += len(bytes(p_))
+        for r in (65542, 70000, 1 << 20):
+            t.evals += 1
+            t.nontrivial += 1
+            sock = ScriptedSocket(bstream, lambda n, remaining, key, s_: starts.get(s_.delivered, 0) if remaining else 0, inspect=False, msg_max=65542)
+            try:
+                items, end = pull(pk.ccsds_generator(sock, buffer_read_size_bytes=r), horizon=len(big) + 2)
+                bad = None
+                if [bytes(x) for x in items] != [bytes(p_) for p_ in big]:
+                    bad = f"{len(items)} items of {len(big)}, {sock.truncated} bytes cut off by reads smaller than the caller asked for"
+            except Exception as e:  # noqa: BLE001
+                bad = f"raised {type(e).__name__}: {str(e)[:80]}"
+            if bad:
+                t.violation({"kind": "reframe-stream", "source": "message-socket", "trimmed": False},
+                            {"stream_of_constructed": True, "n": 5, "threshold": None, "source": "message-socket", "r": r},
+                            observed=bad, note="packets sent one per message over a message-preserving socket are not re-framed into those packets")
     return t
 
 
@@ -382,7 +408,8 @@ def run(ctx):
                   "decode: every 16-bit value of each header word x 3 settings of the other; accessor caching: every ordered pair of the 9 accessors "
                   "(7 fields, header_values, str) read on a fresh object from both create_ccsds_packet and the framer, over a product of field values with "
                   "unequal neighbours; rejection: each field at -1, max+1, +-2^31, max+0.5, -0.5, float(max+1), +-inf, "
-                  "data of 0 and 65537 bytes"),
+                  "data of 0 and 65537 bytes; streams of 5, 40 and 300 constructed packets through bytes, in-memory files, a half-flushed file and sockets at several read sizes "
+                  "and buffer-trim thresholds; six constructed packets of 1..65536 data bytes sent one per message over a message-preserving socket, read sizes 65542, 70000, 2^20"),
         "rule": ("one evaluation = one construction (with accessor read-back and re-framing) or one decode; distinct non-trivial = "
                  "distinct header-word values / lengths / boundary combinations / rejection cases"),
     }
